@@ -1,15 +1,245 @@
 /-
-Driver.ProxySuite — suite `proxy` (stub: replaced by the owner of the suite).
-Must define `proxyLine : String → String` (case line ↦ model observation line) and
-`proxyPred : String → String → String → String` (property id, case line, implementation
-observation line ↦ "ok" | "fail <reason>").
+Driver.ProxySuite — suite `proxy` (C18): parse a case, run Model.Proxy (bridged)
+and Model.Wire (`serve`, the direct connections), print the observation in the
+canonical form of harness/src/suites/proxy.rs; evaluate `P_C18`.
 -/
-import Driver.Sx
+import Driver.WorldInst
+import VarlinkVerif.Model.Proxy
+import VarlinkVerif.Pred.Proxy
 
 namespace VV
+open Sx
 
-def proxyLine (_line : String) : String := "(stub)"
+structure PCase where
+  mode : String
+  modeArg : Option Sx
+  worlds : List WorldSpec
+  table : ResolverTable
+  client : String
+  frames : List Bytes
+  payload : Option (List Bytes)
+  dec : List (Bytes × Frame)
 
-def proxyPred (_prop _caseLine _obsLine : String) : String := "fail stub-suite"
+def svcAddr (k : Nat) : String := "unix:%D/s" ++ toString k ++ ".sock"
+def resolverAddrStr : String := "unix:%D/resolver.sock"
+def sentinelIface := "zz.sentinel"
+
+def resolverWorld (t : ResolverTable) : WorldSpec :=
+  { svc := { vendor := "R", product := "resolver", version := "1", url := "http://r/", ifaces := [] },
+    resolver := some t, up := false }
+
+def parsePCase : Sx → Option PCase
+  | .list [.atom "proxy", mode, .list (.atom "services" :: ws), .list (.atom "rtable" :: rt), .atom client,
+           .list (.atom "session" :: items), dec] => do
+    let (m, arg) ← match mode with
+      | .atom m => some (m, none)
+      | .list [.atom m, a] => some (m, some a)
+      | _ => none
+    let ws ← ws.mapM parseWorld
+    let rt ← rt.mapM fun e => match e with
+      | Sx.list (i :: as) => do
+        let i ← asStr i
+        let as ← as.mapM asStr
+        pure (i, as)
+      | _ => none
+    let frames := items.filterMap fun it => match it with
+      | Sx.list [Sx.atom "rq", b] => asBytes b
+      | _ => none
+    let payload := items.findSome? fun it => match it with
+      | Sx.list (Sx.atom "payload" :: cs) => cs.mapM asBytes
+      | _ => none
+    let dec ← parseDec dec
+    pure { mode := m, modeArg := arg, worlds := ws, table := rt, client, frames, payload, dec }
+  | _ => none
+
+def PCase.fs (c : PCase) : List Frame := c.frames.map (decOf c.dec)
+
+def PCase.svcOf (c : PCase) (t : Nat) : Service :=
+  if t < c.worlds.length then (c.worlds[t]!).service else (resolverWorld c.table).service
+
+def PCase.addrs (c : PCase) : List String := (List.range c.worlds.length).map svcAddr
+
+def PCase.world (c : PCase) : Proxy.World :=
+  { consts := consts,
+    resolve := fun k i => resolveAt c.table k i,
+    svcAt := fun a =>
+      match c.addrs.findIdx? (· == a) with
+      | some k => some (c.svcOf k)
+      | none => if a == resolverAddrStr then some (c.svcOf c.worlds.length) else none,
+    hupWins := abortsAtOnce }
+
+/-- the target of the direct modes -/
+def PCase.fixedTarget (c : PCase) : Nat :=
+  match c.mode, c.modeArg with
+  | "connect", some a =>
+    match asStr a with
+    | some s =>
+      if s.contains ':' then (c.addrs.findIdx? (· == s)).getD 0
+      else match c.table.find? (fun e => e.1 == s) with
+        | some (_, a0 :: _) => (c.addrs.findIdx? (· == a0)).getD 0
+        | _ => 0
+    | none => 0
+  | _, some a => (asNat a).getD 0
+  | _, none => 0
+
+def PCase.directMode (c : PCase) : Bool := c.mode == "connect" || c.mode == "activate" || c.mode == "bridgecmd"
+
+def PCase.routed (c : PCase) : List ProxyPred.Routed :=
+  if c.directMode then ProxyPred.fixedRoute c.fixedTarget c.fs
+  else ProxyPred.refRoute c.table c.addrs 0 c.fs
+
+/-- names of the interfaces of a world whose calls the harness logs (scripted ones, not the sentinel) -/
+def loggedNames (w : WorldSpec) : List String :=
+  (w.svc.ifaces.filter (fun i => i.name != vtestName && i.name != sentinelIface)).map (·.name)
+
+def isLogged (c : PCase) (t : Nat) (r : Request) : Bool :=
+  if t < c.worlds.length then
+    match ifaceOf r.method with
+    | some i => i != svcName && (loggedNames (c.worlds[t]!)).contains i
+    | none => false
+  else false
+
+def payloadBytes (c : PCase) : Bytes := (c.payload.getD []).flatten
+
+/-- per service, the logged calls as a sorted multiset: a oneway call travels on its own
+    connection and may be executed after the call that follows it -/
+def logSx (entries : List (Nat × List Request)) : List Sx :=
+  (entries.filter (fun e => !e.2.isEmpty)).map fun e =>
+    let rendered := (e.2.map fun r => render (ofRequest r)).mergeSort (fun a b => a ≤ b)
+    .list (.atom (toString e.1) :: rendered.map Sx.atom)
+
+def proxyObs (c : PCase) : Sx :=
+  let fs := c.fs
+  let nsvc := c.worlds.length
+  let routed := c.routed
+  let endsUpgraded := match routed.getLast? with | some r => r.upgrade | none => false
+  -- the direct runs
+  let targets := (List.range (nsvc + 1)).filter fun t => routed.any (·.target == t)
+  let directRuns := targets.map fun t =>
+    let mine := (routed.filter (·.target == t)).map (·.frame)
+    let o := serve consts (c.svcOf t) mine
+    let getsPayload := endsUpgraded && (routed.getLast?.map (·.target) == some t)
+    let upgradedHere := match o.status with | .upgraded i => i == upName | _ => false
+    let allAnswered := o.consumed == mine.length
+    let raw : Bytes := if getsPayload && upgradedHere && allAnswered then (payloadBytes c).map upTransform else []
+    let seen : Bytes := if getsPayload && upgradedHere && allAnswered then payloadBytes c else []
+    let calls := (mine.take o.consumed).filterMap fun f => match f with
+      | .req r => if isLogged c t r then some r else none
+      | .bad => none
+    (t, o, raw, seen, calls)
+  let directSx : Sx := .list (.atom "direct" :: directRuns.map fun (t, o, raw, _, _) =>
+    .list [.atom (toString t), .list (.atom "out" :: o.groups.flatten.map ofReply), bytesAtom raw])
+  let directLog := directRuns.map fun (t, _, _, _, calls) => (t, calls)
+  let upDirect : Bytes := (directRuns.map fun (_, _, _, seen, _) => seen).flatten
+  if c.mode == "connect" then
+    .list [.atom "obs", .list [.atom "bridged", .atom "panicked"], .list [.atom "exit", .atom "101"], directSx,
+           .atom "-", .list [.atom "upseen", .atom "-", .atom "-"]]
+  else if c.directMode then
+    -- byte pump in front of service `fixedTarget`
+    let t := c.fixedTarget
+    let o := serve consts (c.svcOf t) fs
+    let early := c.client == "closeearly"
+    let out := if early then [] else o.groups.flatten
+    let upgradedHere := match o.status with | .upgraded i => i == upName | _ => false
+    let raw : Bytes := if !early && upgradedHere && endsUpgraded then (payloadBytes c).map upTransform else []
+    let ending := if early then "closed" else match o.status with
+      | .eof => "open"
+      | .err => "closed"
+      | .upgraded _ => "open"
+    .list [.atom "obs", .list [.atom "bridged", .list (.atom "out" :: out.map ofReply), bytesAtom raw, .atom ending],
+           .list [.atom "exit", .atom "0"], directSx, .atom "-", .list [.atom "upseen", .atom "-", .atom "-"]]
+  else
+    let w := c.world
+    let early := c.client == "closeearly"
+    let dropAll := early && c.mode == "bridge2"     -- the outer pump drops input that is pending when the client closes
+    let o := Proxy.run w {} (if dropAll then [] else fs)
+    let pipelinedPayload := c.client == "pipelined"
+    let pump : Option Proxy.Pumped := match o.status with
+      | .upgraded _ (some i) =>
+        if i == upName then
+          some (if pipelinedPayload then Proxy.upgradedPump (fun b => b.map upTransform) (payloadBytes c) []
+                else Proxy.upgradedPump (fun b => b.map upTransform) [] (c.payload.getD []))
+        else none
+      | _ => none
+    let raw : Bytes := match pump with | some p => p.toClient | none => []
+    let upB : Bytes := match pump with | some p => p.toService | none => []
+    let ending := match o.status with
+      | .eof => if early then "closed" else "open"
+      | .stopped => "closed"
+      | .error => "closed"
+      | .hang => "timeout"
+      | .upgraded _ _ => if early then "closed" else "open"
+    let exit := if c.mode == "bridge2" then "0" else match o.status with
+      | .eof => "0"
+      | .stopped => "0"
+      | .error => "1"
+      | .hang => "timeout"
+      | .upgraded _ _ => "sig6"
+    let bridgedLog := (List.range nsvc).map fun t =>
+      (t, o.sent.filterMap fun (a, r) => if a == svcAddr t && isLogged c t r then some r else none)
+    .list [.atom "obs",
+           .list [.atom "bridged", .list (.atom "out" :: o.groups.flatten.map ofReply), bytesAtom raw, .atom ending],
+           .list [.atom "exit", .atom exit], directSx,
+           .list [.atom "log", .list (.atom "bridged" :: logSx bridgedLog), .list (.atom "direct" :: logSx directLog)],
+           .list [.atom "upseen", bytesAtom upB, bytesAtom upDirect]]
+
+def proxyLine (line : String) : String :=
+  match parse line with
+  | none => "(model-parse-error)"
+  | some (.list [.atom "raceprobe", _]) => "(raceprobe lost)"
+  | some sx =>
+    match parsePCase sx with
+    | some c => render (proxyObs c)
+    | none => "(model-case-error)"
+
+/-! ### predicate -/
+
+def parsePReps (l : List Sx) : List ProxyPred.PRep :=
+  l.map fun x =>
+    let cont := match x with
+      | .list (.atom "r" :: .atom "t" :: _) => true
+      | _ => false
+    { text := render x, continues := cont }
+
+def parseBridged : Sx → Option (Option ProxyPred.Bridged)
+  | .list [.atom "bridged", .atom "panicked"] => some none
+  | .list [.atom "bridged", .list (.atom "out" :: rs), raw, .atom e] => do
+    let raw ← asBytes raw
+    pure (some { out := parsePReps rs, raw, ending := e })
+  | _ => none
+
+def parseDirect (l : List Sx) : List (Nat × List ProxyPred.PRep × List UInt8) :=
+  l.filterMap fun e => match e with
+    | Sx.list [t, Sx.list (Sx.atom "out" :: rs), raw] => do
+      let t ← asNat t
+      let raw ← asBytes raw
+      pure (t, parsePReps rs, raw)
+    | Sx.list [t, Sx.list (Sx.atom "fail" :: _), _] => (asNat t).map fun t => (t, [], [])
+    | _ => none
+
+def proxyPred (prop caseLine obsLine : String) : String :=
+  if prop != "C18" then "fail unknown-property" else
+  match parse caseLine, parse obsLine with
+  | some (.list [.atom "raceprobe", _]), some (.list [.atom "raceprobe", .atom r]) =>
+    if r == "kept" then "ok" else "fail reply-before-close-lost"
+  | some cs, some (.list [.atom "obs", b, .list [.atom "exit", .atom ex], .list (.atom "direct" :: ds), log,
+                          .list [.atom "upseen", ub, ud]]) =>
+    match parsePCase cs, parseBridged b with
+    | some c, some bridged =>
+      let logsEqual : Option Bool := match log with
+        | .list [.atom "log", .list (.atom "bridged" :: bl), .list (.atom "direct" :: dl)] =>
+          some (bl.map render == dl.map render)
+        | _ => none
+      let o : ProxyPred.Obs :=
+        { bridged, exit := ex, direct := parseDirect ds, logsEqual,
+          upBridged := asBytes ub, upDirect := asBytes ud }
+      let pipelinedPayload := c.payload.isSome && c.client == "pipelined" && !c.directMode
+      let nf : String → ProxyPred.PRep := fun i => { text := render (ofReply (errInterfaceNotFound i)), continues := false }
+      match ProxyPred.P_C18 nf c.mode c.client c.payload.isSome pipelinedPayload c.routed o with
+      | none => "ok"
+      | some r => "fail " ++ r
+    | _, _ => "fail unparsable-case-or-observation"
+  | _, some (.list (.atom "panic" :: _)) => "fail harness-panic"
+  | _, _ => "fail unparsable-line"
 
 end VV
